@@ -11,6 +11,6 @@ PROP = dict(
 )
 META = dict(
     technique="Lean 4 proof: generic lemmas over prefix-free key tables + kernel evaluation over the regenerated terminal database and the regenerated built key tables; exhaustive model/implementation comparison of the tables; per-sequence oracle through the verif parser hook",
-    text="Generic theorems (any prefix-free table): key_decodes, unique_match (no dependence on map order), concat_decodes, ctrl_bytes, alt_prefix, lone_esc, del_is_backspace2. Database theorems re-checked by the kernel on every run for all 49 entries: prefix-freeness via a sorted-adjacent certificate, every capability string prepareKeys handles is in the table with a key the description assigns (aliases as base+modifiers), xterm modifier parameters 2..16 for the 22 keys, control bytes, and that no key shadows a mouse report. Engines: `keytable` (exhaustive equality of Lean buildKeys with the real table for every name) and `keyseq` (every capability/table sequence, modifier forms, control bytes, ESC, DEL, Alt prefix, pairs fed to the real parser and judged by an oracle computed from the entry fields).",
-    note="Finding: prepareKeys ignores KeyClear/KeyShfInsert/KeyShfDelete (key-capability-ignored); fix in fixes/C03-ignored-key-caps.patch.",
+    text="Generic theorems (any prefix-free table): key_decodes, unique_match (no dependence on map order), concat_decodes, ctrl_bytes, alt_prefix, lone_esc, del_is_backspace2. Database theorems re-checked by the kernel on every run for all 49 entries: prefix-freeness via a sorted-adjacent certificate, EVERY Key* capability string an entry defines (all fields of terminfo.Terminfo: specCaps_complete against the regenerated field list) is in the table with a key the description assigns (db_keys_decode, full strength since fix bca46fc; aliases as base+modifiers; the Meta/Alt/..Shf fields prepareKeys does not read are defined by no built-in entry: db_unread_caps_undefined), xterm modifier parameters 2..16 for the 22 keys, control bytes, and that no key shadows a mouse report. Engines: `keytable` (exhaustive equality of Lean buildKeys with the real table for every name) and `keyseq` (every capability/table sequence, modifier forms, control bytes, ESC, DEL, Alt prefix, pairs fed to the real parser and judged by an oracle computed from the entry fields).",
+    note="Former finding (fixed by bca46fc): prepareKeys ignored KeyClear/KeyShfInsert/KeyShfDelete (key-capability-ignored).",
 )
